@@ -121,8 +121,8 @@ Ltac break_step :=
   | |- context [if ?b then _ else _] => destruct b eqn:?
   end.
 
-Ltac sset := cbn [issued tokens vip txs approved chal last_totp boot proved spent now fresh
-                  set_ghost set_issued set_chal set_boot set_totp fst snd cuser clevel ciat cexp].
+Ltac sset := cbn [issued tokens vip txs approved chal last_totp boot proved spent now fresh minted okta opush acks saved_totp
+                  set_ghost set_issued set_chal set_boot set_totp set_okta mint fst snd cuser clevel ciat cexp].
 Ltac mono s := apply (Inv_mono s); sset; auto using incl_refl, incl_tl, N.le_refl, Z.le_refl; try lia.
 
 Ltac clean :=
@@ -257,11 +257,12 @@ Lemma step_req_Inv k cert fault s o :
 Proof.
   intros Hsel Hk Hu HI Hc. destruct o; cbn [step_req]; try exact HI.
   - (* Login *)
-    break_step; sset; try exact HI. mono s.
-    intros c' Hin. apply in_app_single in Hin. destruct Hin as [Hin| ->]; [now left|right].
-    split; sset; [apply Z.le_refl|].
-    intros g Hg. rewrite has_add, has_zero in Hg. apply N.eqb_eq in Hg. subst g.
-    exists (now s). split; [apply Z.le_refl|now left].
+    break_step; sset; try exact HI;
+    (mono s;
+     intros c' Hin; apply in_app_single in Hin; destruct Hin as [Hin| ->]; [now left|right];
+     split; sset; [apply Z.le_refl|];
+     intros g Hg; rewrite has_add, has_zero in Hg; apply N.eqb_eq in Hg; subst g;
+     exists (now s); split; [apply Z.le_refl|now left]).
   - (* VipOtp *)
     break_step; sset; try exact HI. clean; subst.
     match goal with |- Inv (set_ghost _ (?x :: _) _) => up_inv k s [x] Hsel Hu HI Hc end.
@@ -296,6 +297,7 @@ Proof.
     match goal with |- Inv (set_ghost _ (?x :: _) _) => up_inv k s [x] Hsel Hu HI Hc end.
   - (* Totp *)
     break_step; sset; try exact HI. clean; subst.
+    destruct (from_cache k); [destruct (totp_mem_guard k)|];
     match goal with |- Inv (set_ghost _ (?x :: _) _) => up_inv k s [x] Hsel Hu HI Hc end.
   - (* U2fBegin *) break_step; sset; try exact HI; mono s.
   - (* U2fFinish *)
@@ -324,6 +326,14 @@ Proof.
     intros g Hg. rewrite has_add, has_zero in Hg. apply N.eqb_eq in Hg. subst g.
     exists (now s). split; [apply Z.le_refl|now left].
   - (* Tick *) mono s.
+  - (* OktaOtp *)
+    break_step; sset; try exact HI. clean; subst.
+    match goal with |- Inv (set_ghost _ (?x :: _) _) => up_inv k s [x] Hsel Hu HI Hc end.
+  - (* OktaPushStart *) break_step; sset; try exact HI; mono s.
+  - (* OktaApprove *) break_step; sset; try exact HI; mono s.
+  - (* OktaPoll *)
+    break_step; sset; try exact HI;
+    first [ match goal with |- Inv (set_ghost _ (?x :: _) _) => up_inv k s [x] Hsel Hu HI Hc end | mono s ].
 Qed.
 
 Lemma present_cert_Inv s cert : Inv s -> Inv (present_cert s cert) /\ cert_known (present_cert s cert) cert.
@@ -340,7 +350,8 @@ Proof.
   intros Hsel Hk Hu HI.
   assert (Hn : cert_known s None) by (intros u H; discriminate).
   destruct o; try (apply (step_req_Inv k None false s _ Hsel Hk Hu HI Hn)).
-  cbn [step]. destruct (present_cert_Inv s cert HI) as [HI' Hc]. apply step_req_Inv; assumption.
+  - cbn [step]. destruct (present_cert_Inv s cert HI) as [HI' Hc]. apply step_req_Inv; assumption.
+  - cbn [step]. apply (step_req_Inv (with_cache k) None false s _ Hsel Hk Hu HI Hn).
 Qed.
 
 Lemma run_fst_step k : forall ops s, fst (run k s ops) = fold_left (fun s o => fst (step k s o)) ops s.
@@ -396,7 +407,7 @@ Ltac mono2 s := apply (Inv2_mono s); sset; auto; try lia.
 
 (* a new pending challenge with a fresh identifier *)
 Lemma Inv2_new_chal s u w e :
-  Inv2 s -> Inv2 (set_chal s (upd (chal s) u (Some {| chid := fresh s; ch_wa := w; chexp := e |})) (fresh s + 1)).
+  Inv2 s -> Inv2 (mint (set_chal s (upd (chal s) u (Some {| chid := fresh s; ch_wa := w; chexp := e |})) (fresh s))).
 Proof.
   intros [J0 [J1 [J2 [J3 [J4 [J5 J6]]]]]]. unfold Inv2; sset. repeat split; auto.
   - intros u0 n H. specialize (J2 u0 n H). lia.
@@ -444,7 +455,7 @@ Proof.
 Qed.
 
 Lemma Inv2_new_boot s u e :
-  Inv2 s -> Inv2 (set_boot s (upd (boot s) u (Some {| bserial := fresh s; bexp := e |})) (fresh s + 1)).
+  Inv2 s -> Inv2 (mint (set_boot s (upd (boot s) u (Some {| bserial := fresh s; bexp := e |})) (fresh s))).
 Proof.
   intros [J0 [J1 [J2 [J3 [J4 [J5 J6]]]]]]. unfold Inv2; sset. repeat split; auto.
   - intros u0 n H. specialize (J2 u0 n H). lia.
@@ -481,7 +492,7 @@ Qed.
 
 Lemma Inv2_use_totp s u t :
   Inv2 s -> (last_totp s u < t)%Z ->
-  Inv2 (set_ghost (set_totp s (upd (last_totp s) u t)) (proved s) (OtTotp u t :: spent s)).
+  Inv2 (set_ghost (set_totp s (upd (last_totp s) u t) (saved_totp s)) (proved s) (OtTotp u t :: spent s)).
 Proof.
   intros [J0 [J1 [J2 [J3 [J4 [J5 J6]]]]]] Hlt. unfold Inv2; sset. repeat split; auto.
   - constructor; [|assumption]. intros Hin. specialize (J1 u t Hin). lia.
@@ -501,8 +512,8 @@ Qed.
 Lemma Inv2_irrelevant s iss p : Inv2 s -> Inv2 (set_ghost (set_issued s iss) p (spent s)).
 Proof. intros H. mono2 s. Qed.
 
-Ltac sset_all := cbn [issued tokens vip txs approved chal last_totp boot proved spent now fresh
-                      set_ghost set_issued set_chal set_boot set_totp fst snd cuser clevel] in *.
+Ltac sset_all := cbn [issued tokens vip txs approved chal last_totp boot proved spent now fresh minted okta opush acks saved_totp
+                      set_ghost set_issued set_chal set_boot set_totp set_okta mint fst snd cuser clevel] in *.
 
 (* goal: Inv2 (set_ghost s2 _ (V :: spent s2)) with s2 out of an upgrade of s1; R is the reference
    state the Inv2_use_* lemma speaks about *)
@@ -515,9 +526,10 @@ Ltac up_inv2 R lem :=
   end.
 
 Lemma step_req_Inv2 k cert fault s o :
-  totp_monotone k = true -> chal_delete_wa k = true -> Inv2 s -> Inv2 (fst (step_req k cert fault s o)).
+  totp_monotone k = true -> chal_delete_wa k = true -> totp_mem_guard k = true ->
+  Inv2 s -> Inv2 (fst (step_req k cert fault s o)).
 Proof.
-  intros Hm Hd HJ. destruct o; cbn [step_req]; rewrite ?Hm, ?Hd; try exact HJ.
+  intros Hm Hd Hg HJ. destruct o; cbn [step_req]; rewrite ?Hm, ?Hd, ?Hg; try exact HJ.
   - (* Login *) break_step; sset; try exact HJ; try (mono2 s).
   - (* VipOtp *)
     break_step; sset; try exact HJ.
@@ -533,8 +545,9 @@ Proof.
     apply (Inv2_mono s); sset; try congruence; try exact HJ; rewrite F11; apply N.le_refl.
   - (* Totp *)
     break_step; sset; try exact HJ. clean; subst.
+    destruct (from_cache k);
     match goal with H : (?t <=? last_totp s ?u)%Z = false |- _ => apply Z.leb_gt in H;
-      up_inv2 (set_ghost (set_totp s (upd (last_totp s) u t)) (proved s) (OtTotp u t :: spent s)) Inv2_use_totp end.
+      up_inv2 (set_ghost (set_totp s (upd (last_totp s) u t) (saved_totp s)) (proved s) (OtTotp u t :: spent s)) Inv2_use_totp end.
   - (* U2fBegin *) break_step; sset; try exact HJ; apply Inv2_new_chal, HJ.
   - (* U2fFinish *)
     break_step; sset; try exact HJ;
@@ -553,28 +566,246 @@ Proof.
       up_inv2 (set_ghost (set_boot s (upd (boot s) u None) (fresh s)) (proved s) (OtBoot u (bserial b) :: spent s)) Inv2_use_boot end.
   - (* ShowTok *) break_step; sset; try exact HJ; try (mono2 s).
   - (* SendDoc *) break_step; sset; try exact HJ; try (mono2 s).
+  - (* OktaOtp *)
+    break_step; sset; try exact HJ.
+    match goal with HU : upgrade _ _ _ _ _ = (_, _) |- _ =>
+      destruct (upgrade_fields _ _ _ _ _ _ _ HU) as [_ [_ [_ [_ [F5 [F6 [F7 [_ [F9 [_ F11]]]]]]]]]] end.
+    apply (Inv2_mono s); sset; try congruence. rewrite F11. apply N.le_refl.
+  - (* OktaPushStart *) break_step; sset; try exact HJ; try (mono2 s).
+  - (* OktaApprove *) break_step; sset; try exact HJ; try (mono2 s).
+  - (* OktaPoll *)
+    break_step; sset; try exact HJ;
+    first [ match goal with HU : upgrade _ _ _ _ _ = (_, _) |- _ =>
+              destruct (upgrade_fields _ _ _ _ _ _ _ HU) as [_ [_ [_ [_ [F5 [F6 [F7 [_ [F9 [_ F11]]]]]]]]]] end; sset_all;
+            apply (Inv2_mono s); sset; try congruence; rewrite F11; apply N.le_refl
+          | mono2 s ].
 Qed.
 
 Lemma step_Inv2 k s o :
-  totp_monotone k = true -> chal_delete_wa k = true -> Inv2 s -> Inv2 (fst (step k s o)).
+  totp_monotone k = true -> chal_delete_wa k = true -> totp_mem_guard k = true -> Inv2 s -> Inv2 (fst (step k s o)).
 Proof.
-  intros Hm Hd HJ. destruct o; try (apply (step_req_Inv2 k None false s _ Hm Hd HJ)).
-  cbn [step]. apply step_req_Inv2; try assumption. destruct cert; [|exact HJ]. cbn [present_cert]. mono2 s.
+  intros Hm Hd Hg HJ. destruct o; try (apply (step_req_Inv2 k None false s _ Hm Hd Hg HJ)).
+  - cbn [step]. apply step_req_Inv2; try assumption. destruct cert; [|exact HJ]. cbn [present_cert]. mono2 s.
+  - cbn [step]. apply (step_req_Inv2 (with_cache k) None false s _ Hm Hd Hg HJ).
 Qed.
 
-Theorem run_Inv2 k ops : totp_monotone k = true -> chal_delete_wa k = true -> Inv2 (fst (run k init ops)).
+Theorem run_Inv2 k ops :
+  totp_monotone k = true -> chal_delete_wa k = true -> totp_mem_guard k = true -> Inv2 (fst (run k init ops)).
 Proof.
-  intros Hm Hd. rewrite run_fst_step. generalize Inv2_init. generalize init.
+  intros Hm Hd Hg. rewrite run_fst_step. generalize Inv2_init. generalize init.
   induction ops as [|o r IH]; intros s HJ; [exact HJ|]. cbn [fold_left]. apply IH. apply step_Inv2; assumption.
 Qed.
 
+
+Lemma upgrade_minted k s u cs lvl s2 out : upgrade k s u cs lvl = (s2, out) -> minted s2 = minted s.
+Proof.
+  unfold upgrade. destruct (pick_sel (upg_last k) (attached s cs)) as [c|]; [|intros H; inversion H; subst; reflexivity].
+  destruct (upgrade_checks_owner k && negb (N.eqb (cuser c) u)); intros H; inversion H; subst; reflexivity.
+Qed.
+
+(* ---------------------------------------------------------------- one-time values are fresh *)
+(* `minted` is the list of the ids of all one-time values ever handed out.  A begin / issue / push
+   start hands out `fresh s`; everything handed out before is smaller: the new value was never
+   handed out before, is not pending for anybody and was never accepted *)
+Definition spent_minted (s : st) (v : onetime) : Prop :=
+  match v with OtChal i => In i (minted s) | OtBoot _ n => In n (minted s) | OtTotp _ _ => True end.
+
+Definition Inv3 (s : st) : Prop :=
+  NoDup (minted s) /\
+  (forall i, In i (minted s) -> (i < fresh s)%N) /\
+  (forall u ch, chal s u = Some ch -> In (chid ch) (minted s)) /\
+  (forall u b, boot s u = Some b -> In (bserial b) (minted s)) /\
+  (forall e, In e (txs s) -> In (fst e) (minted s)) /\
+  (forall v, In v (spent s) -> spent_minted s v).
+
+Lemma Inv3_init : Inv3 init.
+Proof.
+  unfold Inv3, init; cbn. repeat split; try (intros; contradiction); try (intros; discriminate). constructor.
+Qed.
+
+Lemma fresh_not_minted s : Inv3 s -> ~ In (fresh s) (minted s).
+Proof. intros [_ [H _]] Hin. specialize (H _ Hin). lia. Qed.
+
+(* what a newly accepted one-time value must be: the pending challenge / stored OTP of somebody *)
+Definition spent_src (s : st) (v : onetime) : Prop :=
+  match v with
+  | OtChal i => exists u ch, chal s u = Some ch /\ chid ch = i
+  | OtBoot _ n => exists u b, boot s u = Some b /\ bserial b = n
+  | OtTotp _ _ => True
+  end.
+
+(* a step that hands nothing out *)
+Lemma Inv3_same s s' :
+  Inv3 s -> minted s' = minted s -> (fresh s <= fresh s')%N ->
+  (forall u ch, chal s' u = Some ch -> exists u', chal s u' = Some ch) ->
+  (forall u b, boot s' u = Some b -> exists u', boot s u' = Some b) ->
+  txs s' = txs s ->
+  (forall v, In v (spent s') -> In v (spent s) \/ spent_src s v) ->
+  Inv3 s'.
+Proof.
+  intros [K0 [K1 [K2 [K3 [K4 K5]]]]] Hm Hf Hc Hb Ht Hs. unfold Inv3. rewrite Hm, Ht.
+  split; [exact K0|]. split; [intros i Hi; specialize (K1 i Hi); lia|].
+  split; [intros u ch H; destruct (Hc u ch H) as [u' H']; exact (K2 u' ch H')|].
+  split; [intros u b H; destruct (Hb u b H) as [u' H']; exact (K3 u' b H')|].
+  split; [exact K4|].
+  intros v Hv. assert (G : spent_minted s v).
+  { destruct (Hs v Hv) as [Hold|Hnew]; [exact (K5 v Hold)|].
+    destruct v as [u t|u n|i]; cbn in *; [exact I| |].
+    - destruct Hnew as [u' [b [H1 H2]]]. subst n. exact (K3 u' b H1).
+    - destruct Hnew as [u' [ch [H1 H2]]]. subst i. exact (K2 u' ch H1). }
+  destruct v; cbn in *; try rewrite Hm; exact G.
+Qed.
+
+(* a step that hands out the value `fresh s` *)
+Lemma Inv3_mint s s' :
+  Inv3 s -> minted s' = fresh s :: minted s -> fresh s' = (fresh s + 1)%N ->
+  (forall u ch, chal s' u = Some ch -> (exists u', chal s u' = Some ch) \/ chid ch = fresh s) ->
+  (forall u b, boot s' u = Some b -> (exists u', boot s u' = Some b) \/ bserial b = fresh s) ->
+  (forall e, In e (txs s') -> In e (txs s) \/ fst e = fresh s) ->
+  spent s' = spent s ->
+  Inv3 s'.
+Proof.
+  intros HK Hm Hf Hc Hb Ht Hs. pose proof (fresh_not_minted s HK) as Hnew.
+  destruct HK as [K0 [K1 [K2 [K3 [K4 K5]]]]]. unfold Inv3. rewrite Hm, Hf, Hs.
+  split; [constructor; assumption|].
+  split; [intros i [<-|Hi]; [lia|specialize (K1 i Hi); lia]|].
+  split; [intros u ch H; destruct (Hc u ch H) as [[u' H']|E]; [right; exact (K2 u' ch H')|left; symmetry; exact E]|].
+  split; [intros u b H; destruct (Hb u b H) as [[u' H']|E]; [right; exact (K3 u' b H')|left; symmetry; exact E]|].
+  split; [intros e H; destruct (Ht e H) as [H'|E]; [right; exact (K4 e H')|left; symmetry; exact E]|].
+  intros v Hv. specialize (K5 v Hv). destruct v; cbn in *; try rewrite Hm; try (right; exact K5); exact K5.
+Qed.
+
+Lemma upd_some_src {A} (m : N -> option A) u (x : option A) u0 a :
+  upd m u x u0 = Some a -> (exists u', m u' = Some a) \/ x = Some a.
+Proof.
+  unfold upd. destruct (N.eqb u0 u); intros H; [right; exact H|left; exists u0; exact H].
+Qed.
+
+Ltac inv3_same s :=
+  apply (Inv3_same s); sset; auto using N.le_refl; try lia;
+  try (intros ? ? H; eexists; exact H).
+
+(* goal: Inv3 of a state that comes out of an upgrade, nothing handed out *)
+Ltac inv3_up s HK :=
+  match goal with HU : upgrade _ _ _ _ _ = (_, _) |- _ =>
+    let F := fresh "F" in let G := fresh "G" in
+    pose proof (upgrade_fields _ _ _ _ _ _ _ HU) as F; pose proof (upgrade_minted _ _ _ _ _ _ _ HU) as G; sset_all;
+    destruct F as [_ [_ [F3 [_ [F5 [_ [F7 [_ [F9 [_ F11]]]]]]]]]];
+    apply (Inv3_same s); sset;
+    [ exact HK
+    | congruence
+    | rewrite F11; apply N.le_refl
+    | let H := fresh "H" in intros ? ? H; rewrite F5 in H;
+      first [ apply upd_some_src in H; destruct H as [H|H]; [exact H|discriminate] | eexists; exact H ]
+    | let H := fresh "H" in intros ? ? H; rewrite F7 in H;
+      first [ apply upd_some_src in H; destruct H as [H|H]; [exact H|discriminate] | eexists; exact H ]
+    | congruence
+    | let Hv := fresh "Hv" in intros ? Hv;
+      first [ rewrite F9 in Hv; now left
+            | destruct Hv as [<-|Hv];
+              [ right; cbn; first [exact I | eexists; eexists; split; [eassumption|reflexivity]]
+              | rewrite F9 in Hv; now left ] ] ]
+  end.
+
+Lemma step_req_Inv3 k cert fault s o : Inv3 s -> Inv3 (fst (step_req k cert fault s o)).
+Proof.
+  intros HK. destruct o; cbn [step_req]; try exact HK.
+  - (* Login *) break_step; sset; exact HK.
+  - (* VipOtp *) break_step; sset; try exact HK. inv3_up s HK.
+  - (* PushStart *)
+    break_step; sset; try exact HK.
+    apply (Inv3_mint s); sset; auto.
+    + intros u0 ch H. left. eexists; exact H.
+    + intros u0 b H. left. eexists; exact H.
+    + intros e [<-|He]; [right; reflexivity|now left].
+  - (* Approve *) break_step; sset; exact HK.
+  - (* Poll *) break_step; sset; try exact HK; inv3_up s HK.
+  - (* Totp *)
+    break_step; sset; try exact HK. (destruct (from_cache k); [destruct (totp_mem_guard k)|]); inv3_up s HK.
+  - (* U2fBegin *)
+    break_step; sset; try exact HK.
+    apply (Inv3_mint s); sset; auto.
+    + intros u0 ch H. apply upd_some_src in H. destruct H as [H|H]; [now left|right]. inversion H; reflexivity.
+    + intros u0 b H. left. eexists; exact H.
+  - (* U2fFinish *)
+    break_step; sset; try exact HK; (destruct (a_wa_key a); [destruct (chal_delete_wa k)|]); inv3_up s HK.
+  - (* WaBegin *)
+    break_step; sset; try exact HK.
+    apply (Inv3_mint s); sset; auto.
+    + intros u0 ch H. apply upd_some_src in H. destruct H as [H|H]; [now left|right]. inversion H; reflexivity.
+    + intros u0 b H. left. eexists; exact H.
+  - (* WaFinish *) break_step; sset; try exact HK; inv3_up s HK.
+  - (* IssueOtp *)
+    break_step; sset; try exact HK;
+    (apply (Inv3_mint s); sset; auto;
+     [ intros u0 ch H; left; eexists; exact H
+     | intros u0 b H; apply upd_some_src in H; destruct H as [H|H]; [now left|right]; inversion H; reflexivity ]).
+  - (* Bootstrap *) break_step; sset; try exact HK. clean; subst. inv3_up s HK.
+  - (* ShowTok *) break_step; sset; exact HK.
+  - (* SendDoc *) break_step; sset; exact HK.
+  - (* OktaOtp *) break_step; sset; try exact HK. inv3_up s HK.
+  - (* OktaPushStart *) break_step; sset; exact HK.
+  - (* OktaApprove *) break_step; sset; exact HK.
+  - (* OktaPoll *) break_step; sset; try exact HK. inv3_up s HK.
+Qed.
+
+Lemma step_Inv3 k s o : Inv3 s -> Inv3 (fst (step k s o)).
+Proof.
+  intros HK. destruct o; try (apply (step_req_Inv3 k None false s _ HK)).
+  - cbn [step]. apply step_req_Inv3. destruct cert; exact HK.
+  - cbn [step]. apply (step_req_Inv3 (with_cache k) None false s _ HK).
+Qed.
+
+Theorem run_Inv3 k ops : Inv3 (fst (run k init ops)).
+Proof.
+  rewrite run_fst_step. generalize Inv3_init. generalize init.
+  induction ops as [|o r IH]; intros s HK; [exact HK|]. cbn [fold_left]. apply IH. apply step_Inv3; assumption.
+Qed.
+
+(* what a step hands out *)
+Lemma step_req_minted k cert fault s o :
+  let s' := fst (step_req k cert fault s o) in
+  minted s' = minted s \/ (minted s' = fresh s :: minted s /\ fresh s' = (fresh s + 1)%N).
+Proof.
+  destruct o; cbn [step_req]; try (left; reflexivity);
+  break_step; sset; try (left; reflexivity); try (right; split; reflexivity);
+  match goal with HU : upgrade _ _ _ _ _ = (_, _) |- _ =>
+    pose proof (upgrade_minted _ _ _ _ _ _ _ HU) as G end; sset_all;
+  try (destruct (a_wa_key a); [destruct (chal_delete_wa k)|]);
+  try (destruct (from_cache k); [destruct (totp_mem_guard k)|]); sset_all; left; exact G.
+Qed.
+
+Lemma step_minted k s o :
+  let s' := fst (step k s o) in
+  minted s' = minted s \/ (minted s' = fresh s :: minted s /\ fresh s' = (fresh s + 1)%N).
+Proof.
+  destruct o; try (apply (step_req_minted k None false s)).
+  - cbn [step]. pose proof (step_req_minted k cert fault (present_cert s cert) o) as H.
+    destruct cert; exact H.
+  - cbn [step]. apply (step_req_minted (with_cache k) None false s).
+Qed.
+
+(* the value a step hands out (observation `handed`) was never handed out before *)
+Lemma handed_fresh k s o i :
+  Inv3 s -> handed s (fst (step k s o)) = Some i ->
+  i = fresh s /\ ~ In i (minted s) /\ minted (fst (step k s o)) = i :: minted s.
+Proof.
+  intros HK. unfold handed. destruct (step_minted k s o) as [E|[E _]]; rewrite E.
+  - destruct (minted s); [discriminate|]. rewrite Nat.eqb_refl. discriminate.
+  - cbn [length]. replace (Nat.eqb (S (length (minted s))) (length (minted s))) with false
+      by (symmetry; apply Nat.eqb_neq; lia).
+    intros H; inversion H; subst i. split; [reflexivity|]. split; [apply fresh_not_minted, HK|reflexivity].
+Qed.
+
 (* the request proper inside a wrapper *)
-Definition base (o : op) : op := match o with Req _ _ o' => o' | _ => o end.
+Definition base (o : op) : op := match o with Req _ _ o' | Cached o' => o' | _ => o end.
+(* the code serving the request: with the cache as read source for a `Cached` request *)
+Definition cfg_for (k : config) (o : op) : config := match o with Cached _ => with_cache k | _ => k end.
 Definition cert_of (o : op) : option N := match o with Req c _ _ => c | _ => None end.
 Definition fault_of (o : op) : bool := match o with Req _ f _ => f | _ => false end.
 
 Lemma step_unfold k s o :
-  step k s o = step_req k (cert_of o) (fault_of o) (present_cert s (cert_of o)) (base o).
+  step k s o = step_req (cfg_for k o) (cert_of o) (fault_of o) (present_cert s (cert_of o)) (base o).
 Proof. destruct o; reflexivity. Qed.
 
 Lemma present_cert_spent s c : spent (present_cert s c) = spent s.
@@ -600,7 +831,8 @@ Proof.
   - destruct code; [|discriminate]. inversion Hp; subst v. revert Hacc. cbn [step_req].
     break_step; sset; try (intros H; exfalso; apply H; reflexivity); intros _; clean; subst;
     match goal with HU : upgrade _ _ _ _ _ = (_, _) |- _ =>
-      destruct (upgrade_fields _ _ _ _ _ _ _ HU) as [_ [_ [_ [_ [_ [_ [_ [_ [F9 _]]]]]]]]]; rewrite F9 end; reflexivity.
+      destruct (upgrade_fields _ _ _ _ _ _ _ HU) as [_ [_ [_ [_ [_ [_ [_ [_ [F9 _]]]]]]]]]; rewrite F9 end;
+    (destruct (from_cache k); [destruct (totp_mem_guard k)|]); reflexivity.
   - inversion Hp; subst v. revert Hacc. cbn [step_req].
     break_step; sset; try (intros H; exfalso; apply H; reflexivity); intros _; clean;
     match goal with H : a_chal _ = _ |- _ => rewrite H end;
@@ -627,14 +859,14 @@ Qed.
 
 (* ... and a recorded value is never accepted again *)
 Lemma spent_refused k s o v :
-  totp_monotone k = true -> chal_delete_wa k = true -> Inv2 s ->
+  totp_monotone k = true -> chal_delete_wa k = true -> totp_mem_guard k = true -> Inv2 s ->
   presents o = Some v -> In v (spent s) -> snd (step k s o) = None.
 Proof.
-  intros Hm Hd HJ Hp Hin.
+  intros Hm Hd Hg HJ Hp Hin.
   destruct (snd (step k s o)) as [c|] eqn:E; [exfalso|reflexivity].
   assert (Hacc : snd (step k s o) <> None) by (rewrite E; discriminate).
   pose proof (accepted_spent k s o v Hp Hacc) as Hs.
-  pose proof (step_Inv2 k s o Hm Hd HJ) as [J0 _]. rewrite Hs in J0. inversion J0; contradiction.
+  pose proof (step_Inv2 k s o Hm Hd Hg HJ) as [J0 _]. rewrite Hs in J0. inversion J0; contradiction.
 Qed.
 
 (* ---------------------------------------------------------------- answers about somebody else *)
@@ -642,6 +874,7 @@ Qed.
 Definition about (k : config) (s : st) (o : op) : option N :=
   match o with
   | VipOtp _ (VGood owner) => Some owner
+  | OktaOtp _ (VGood owner) => Some owner
   | Totp _ (TCode owner _) => Some owner
   | Bootstrap _ (BCode owner _) => Some owner
   | U2fFinish _ a => Some (a_owner a)
@@ -655,7 +888,7 @@ Definition about (k : config) (s : st) (o : op) : option N :=
 Definition requester (k : config) (s : st) (cert : option N) (o : op) : option N :=
   let who cs m := match auth k s cert cs m with Some (u, _) => Some u | None => None end in
   match o with
-  | VipOtp cs _ | Totp cs _ | Bootstrap cs _ | U2fFinish cs _ | WaFinish cs _ | Poll cs _ => who cs any_mask
+  | VipOtp cs _ | Totp cs _ | Bootstrap cs _ | U2fFinish cs _ | WaFinish cs _ | Poll cs _ | OktaOtp cs _ => who cs any_mask
   | SendDoc cs _ => who cs (webui k)
   | _ => None
   end.
@@ -694,13 +927,17 @@ Proof.
   - (* Bootstrap *)
     destruct (auth k s cert cs any_mask) as [[w l]|]; [|discriminate]. inversion Hr; subst u'.
     destruct code; [|discriminate]. inversion Ha; subst u.
-    rewrite (Hneb owner w) by reflexivity. cbn [andb].
+    rewrite (Hneb owner w) by reflexivity. cbn [andb]. destruct (from_cache k); [reflexivity|].
     destruct (has_totp (devs k w) || has_u2f (devs k w)); [reflexivity|].
     destruct (boot s w) as [b|]; [|reflexivity]. destruct (bexp b <=? now s)%Z; reflexivity.
   - (* SendDoc *)
     destruct (auth k s cert cs (webui k)) as [[w l]|]; [|discriminate]. inversion Hr; subst u'.
     destruct (nth_error (tokens s) tk) as [t|]; [|discriminate]. inversion Ha; subst u.
     rewrite (Hneb (towner t) w) by reflexivity. reflexivity.
+  - (* OktaOtp *)
+    destruct (auth k s cert cs any_mask) as [[w l]|]; [|discriminate]. inversion Hr; subst u'.
+    destruct code; [|discriminate]. inversion Ha; subst u. rewrite (Hneb owner w) by reflexivity.
+    destruct (negb (okta_on k)); [reflexivity|]. destruct (negb (okta_valid s w)); reflexivity.
 Qed.
 
 (* ---------------------------------------------------------------- expired values *)
@@ -722,6 +959,12 @@ Definition expired (k : config) (s : st) (cert : option N) (o : op) : bool :=
       end
   | SendDoc _ tk => match nth_error (tokens s) tk with Some t => (texp t <=? now s)%Z | None => false end
   | Poll _ v => match find_vip_raw s v with Some e => (vexp e <=? now s)%Z | None => false end
+  | OktaOtp cs _ | OktaPushStart cs | OktaPoll cs =>
+      (* the cached answer of the user's last password check (with the Okta state token) past its expiry *)
+      match auth k s cert cs any_mask with
+      | Some (u, _) => match okta s u with Some e => (e <=? now s)%Z | None => false end
+      | None => false
+      end
   | _ => false
   end.
 
@@ -741,12 +984,21 @@ Proof.
   - destruct (auth k s cert cs any_mask) as [[w l]|]; [|reflexivity].
     destruct (has_profile (devs k w)); [|reflexivity].
     destruct (chal s w); [|reflexivity]. rewrite Hk, He. reflexivity.
-  - destruct (auth k s cert cs any_mask) as [[w l]|]; [|reflexivity].
+  - destruct (auth k s cert cs any_mask) as [[w l]|]; [|reflexivity]. destruct (from_cache k); [reflexivity|].
     destruct (has_totp (devs k w) || has_u2f (devs k w)); [reflexivity|].
     destruct (boot s w); [|reflexivity]. rewrite He. reflexivity.
   - destruct (auth k s cert cs (webui k)) as [[w l]|]; [|reflexivity].
     destruct (nth_error (tokens s) tk) as [t|]; [|reflexivity]. rewrite He.
     destruct (negb (N.eqb (towner t) w)); reflexivity.
+  - destruct (auth k s cert cs any_mask) as [[w l]|]; [|reflexivity].
+    destruct (negb (okta_on k)); [reflexivity|]. unfold okta_valid.
+    destruct (okta s w); [|discriminate]. rewrite He. reflexivity.
+  - destruct (auth k s cert cs any_mask) as [[w l]|]; [|reflexivity].
+    destruct (negb (okta_on k)); [reflexivity|]. unfold okta_valid.
+    destruct (okta s w); [|discriminate]. rewrite He. reflexivity.
+  - destruct (auth k s cert cs any_mask) as [[w l]|]; [|reflexivity].
+    destruct (negb (okta_on k)); [reflexivity|]. unfold okta_valid.
+    destruct (okta s w); [|discriminate]. rewrite He. reflexivity.
 Qed.
 
 (* ---------------------------------------------------------------- expired session cookies *)
@@ -754,7 +1006,7 @@ Qed.
 Definition cookies_of (o : op) : option (list nat) :=
   match o with
   | VipOtp cs _ | PushStart cs _ | Poll cs _ | Totp cs _ | U2fBegin cs | U2fFinish cs _ | WaBegin cs | WaFinish cs _
-  | Bootstrap cs _ | ShowTok cs _ | SendDoc cs _ => Some cs
+  | Bootstrap cs _ | ShowTok cs _ | SendDoc cs _ | OktaOtp cs _ | OktaPushStart cs | OktaPoll cs => Some cs
   | _ => None
   end.
 
@@ -780,7 +1032,7 @@ Definition dev_all : devices := {| has_totp := true; has_u2f := true; has_wa := 
 Definition cfg_with (poll mono expi del : bool) : config :=
   {| devs := fun _ => dev_all; webui := 2 ^ F_U2F; cookie_life := 57600; sel_last := true; upg_last := true;
      vip_life := 120; vip_expiry := true; poll_checks_user := poll;
-     totp_monotone := mono; chal_expiry := expi; chal_delete_wa := del; upgrade_checks_owner := true |}.
+     totp_monotone := mono; chal_expiry := expi; chal_delete_wa := del; upgrade_checks_owner := true; okta_on := false; okta_life := 300; from_cache := false; totp_mem_guard := true |}.
 
 (* user 2 polls with the push cookie of user 1's approved transaction *)
 Definition w_poll : list op := [Login 1 true; Login 2 true; PushStart [0%nat] 7; Approve 0; Poll [1%nat] 7].
@@ -826,11 +1078,11 @@ Definition dev_none : devices := {| has_totp := false; has_u2f := false; has_wa 
 Definition cfg_old_upgrade : config :=
   {| devs := fun _ => dev_none; webui := 2 ^ F_U2F; cookie_life := 57600; sel_last := true; upg_last := true;
      vip_life := 120; vip_expiry := true; poll_checks_user := true;
-     totp_monotone := true; chal_expiry := true; chal_delete_wa := true; upgrade_checks_owner := false |}.
+     totp_monotone := true; chal_expiry := true; chal_delete_wa := true; upgrade_checks_owner := false; okta_on := false; okta_life := 300; from_cache := false; totp_mem_guard := true |}.
 Definition cfg_new_upgrade : config :=
   {| devs := fun _ => dev_none; webui := 2 ^ F_U2F; cookie_life := 57600; sel_last := true; upg_last := true;
      vip_life := 120; vip_expiry := true; poll_checks_user := true;
-     totp_monotone := true; chal_expiry := true; chal_delete_wa := true; upgrade_checks_owner := true |}.
+     totp_monotone := true; chal_expiry := true; chal_delete_wa := true; upgrade_checks_owner := true; okta_on := false; okta_life := 300; from_cache := false; totp_mem_guard := true |}.
 Definition w_cert : list op :=
   [Login 2 true; IssueOtp 1 3600; Req (Some 1%N) false (Bootstrap [0%nat] (BCode 1 0))].
 Lemma old_cert_cookie :
@@ -853,7 +1105,7 @@ Qed.
 Definition cfg_first_cookie (lst : bool) : config :=
   {| devs := fun _ => dev_all; webui := 2 ^ F_U2F; cookie_life := 57600; sel_last := true; upg_last := lst;
      vip_life := 120; vip_expiry := true; poll_checks_user := true;
-     totp_monotone := true; chal_expiry := true; chal_delete_wa := true; upgrade_checks_owner := true |}.
+     totp_monotone := true; chal_expiry := true; chal_delete_wa := true; upgrade_checks_owner := true; okta_on := false; okta_life := 300; from_cache := false; totp_mem_guard := true |}.
 Definition w_first : list op :=
   [Tick 3000; Login 1 true; Totp [0%nat] (TCode 1 100); Tick 3600; Login 1 true;
    U2fBegin [2%nat; 1%nat]; U2fFinish [2%nat; 1%nat] (asrt 1 0 false)].
@@ -876,7 +1128,7 @@ Qed.
 Definition cfg_vip_expiry (b : bool) : config :=
   {| devs := fun _ => dev_all; webui := 2 ^ F_U2F; cookie_life := 57600; sel_last := true; upg_last := true;
      vip_life := 120; vip_expiry := b; poll_checks_user := true;
-     totp_monotone := true; chal_expiry := true; chal_delete_wa := true; upgrade_checks_owner := true |}.
+     totp_monotone := true; chal_expiry := true; chal_delete_wa := true; upgrade_checks_owner := true; okta_on := false; okta_life := 300; from_cache := false; totp_mem_guard := true |}.
 Definition w_vip_exp : list op := [Login 1 true; PushStart [0%nat] 7; Approve 0; Tick 300; Poll [0%nat] 7].
 Lemma old_vip_expiry :
   nth 4 (snd (run (cfg_vip_expiry false) init w_vip_exp)) None <> None /\
@@ -895,3 +1147,155 @@ Proof. destruct o; cbn [requester]; rewrite ?auth_present; reflexivity. Qed.
 
 Lemma about_present k s c o : about k (present_cert s c) o = about k s o.
 Proof. destruct c; reflexivity. Qed.
+
+(* ---------------------------------------------------------------- the expiry of a one-time value is fixed when it is handed out *)
+(* how a request changes the pending challenges / stored bootstrap OTPs: not at all, one deleted, or
+   one replaced by a value with the new id `fresh s` *)
+Lemma step_req_chal k cert fault s o :
+  let s' := fst (step_req k cert fault s o) in
+  chal s' = chal s \/ (exists u, chal s' = upd (chal s) u None) \/
+  (exists u w e, chal s' = upd (chal s) u (Some {| chid := fresh s; ch_wa := w; chexp := e |})).
+Proof.
+  destruct o; cbn [step_req]; try (left; reflexivity);
+  break_step; sset; try (left; reflexivity);
+  try (right; right; eexists; eexists; eexists; reflexivity);
+  match goal with HU : upgrade _ _ _ _ _ = (_, _) |- _ =>
+    destruct (upgrade_fields _ _ _ _ _ _ _ HU) as [_ [_ [_ [_ [F5 _]]]]] end; sset_all;
+  try (destruct (a_wa_key a); [destruct (chal_delete_wa k)|]);
+  try (destruct (from_cache k); [destruct (totp_mem_guard k)|]); sset_all; rewrite F5;
+  first [left; reflexivity | right; left; eexists; reflexivity].
+Qed.
+
+Lemma step_req_boot k cert fault s o :
+  let s' := fst (step_req k cert fault s o) in
+  boot s' = boot s \/ (exists u, boot s' = upd (boot s) u None) \/
+  (exists u e, boot s' = upd (boot s) u (Some {| bserial := fresh s; bexp := e |})).
+Proof.
+  destruct o; cbn [step_req]; try (left; reflexivity);
+  break_step; sset; try (left; reflexivity);
+  try (right; right; eexists; eexists; reflexivity);
+  match goal with HU : upgrade _ _ _ _ _ = (_, _) |- _ =>
+    destruct (upgrade_fields _ _ _ _ _ _ _ HU) as [_ [_ [_ [_ [_ [_ [F7 _]]]]]]] end; sset_all;
+  try (destruct (a_wa_key a); [destruct (chal_delete_wa k)|]);
+  try (destruct (from_cache k); [destruct (totp_mem_guard k)|]); sset_all; rewrite F7;
+  first [left; reflexivity | right; left; eexists; reflexivity].
+Qed.
+
+(* a challenge that is pending after a request under the id of a challenge that was pending before
+   it IS that challenge: same user, same expiry, same kind — no request re-stamps a pending value *)
+Lemma chal_fixed_req k cert fault s o u ch u' ch' :
+  Inv2 s -> Inv3 s ->
+  chal s u = Some ch -> chal (fst (step_req k cert fault s o)) u' = Some ch' -> chid ch' = chid ch ->
+  u' = u /\ ch' = ch.
+Proof.
+  intros [_ [_ [_ [_ [_ [_ J6]]]]]] HK Hc Hc' Hid.
+  assert (Hold : chal s u' = Some ch' -> u' = u /\ ch' = ch).
+  { intros H. assert (u' = u) by (eapply J6; eauto). subst u'. split; [reflexivity|congruence]. }
+  destruct (step_req_chal k cert fault s o) as [E|[[x E]|[x [w [e E]]]]]; rewrite E in Hc'.
+  - apply Hold, Hc'.
+  - unfold upd in Hc'. destruct (N.eqb u' x); [discriminate|]. apply Hold, Hc'.
+  - unfold upd in Hc'. destruct (N.eqb u' x); [|apply Hold, Hc'].
+    inversion Hc'; subst ch'. cbn in Hid. destruct HK as [_ [K1 [K2 _]]].
+    specialize (K1 _ (K2 u ch Hc)). lia.
+Qed.
+
+Lemma boot_fixed_req k cert fault s o u b b' :
+  Inv3 s -> boot s u = Some b -> boot (fst (step_req k cert fault s o)) u = Some b' -> bserial b' = bserial b -> b' = b.
+Proof.
+  intros HK Hb Hb' Hid.
+  destruct (step_req_boot k cert fault s o) as [E|[[x E]|[x [e E]]]]; rewrite E in Hb'.
+  - congruence.
+  - unfold upd in Hb'. destruct (N.eqb u x); [discriminate|congruence].
+  - unfold upd in Hb'. destruct (N.eqb u x); [|congruence].
+    inversion Hb'; subst b'. cbn in Hid. destruct HK as [_ [K1 [_ [K3 _]]]].
+    specialize (K1 _ (K3 u b Hb)). lia.
+Qed.
+
+Lemma present_cert_fields s c :
+  chal (present_cert s c) = chal s /\ boot (present_cert s c) = boot s /\ minted (present_cert s c) = minted s /\
+  fresh (present_cert s c) = fresh s /\ txs (present_cert s c) = txs s /\ last_totp (present_cert s c) = last_totp s.
+Proof. destruct c; repeat split; reflexivity. Qed.
+
+Lemma Inv2_present s c : Inv2 s -> Inv2 (present_cert s c).
+Proof. intros H. destruct c; [|exact H]. cbn [present_cert]. mono2 s. Qed.
+
+Lemma Inv3_present s c : Inv3 s -> Inv3 (present_cert s c).
+Proof. intros H. destruct c; exact H. Qed.
+
+Lemma chal_fixed k s o u ch u' ch' :
+  Inv2 s -> Inv3 s ->
+  chal s u = Some ch -> chal (fst (step k s o)) u' = Some ch' -> chid ch' = chid ch -> u' = u /\ ch' = ch.
+Proof.
+  intros HJ HK. rewrite step_unfold. intros Hc. apply chal_fixed_req.
+  - apply Inv2_present, HJ.
+  - apply Inv3_present, HK.
+  - destruct (present_cert_fields s (cert_of o)) as [E _]. rewrite E. exact Hc.
+Qed.
+
+Lemma boot_fixed k s o u b b' :
+  Inv3 s -> boot s u = Some b -> boot (fst (step k s o)) u = Some b' -> bserial b' = bserial b -> b' = b.
+Proof.
+  intros HK. rewrite step_unfold. intros Hb. apply boot_fixed_req.
+  - apply Inv3_present, HK.
+  - destruct (present_cert_fields s (cert_of o)) as [_ [E _]]. rewrite E. exact Hb.
+Qed.
+
+(* the value a step hands out is new in every respect: never handed out, not pending, never accepted *)
+Lemma handed_new k s o i :
+  Inv3 s -> handed s (fst (step k s o)) = Some i ->
+  ~ In i (minted s) /\ minted (fst (step k s o)) = i :: minted s /\
+  (forall u ch, chal s u = Some ch -> chid ch <> i) /\
+  (forall u b, boot s u = Some b -> bserial b <> i) /\
+  ~ In (OtChal i) (spent s) /\ (forall u, ~ In (OtBoot u i) (spent s)).
+Proof.
+  intros HK Hh. destruct (handed_fresh k s o i HK Hh) as [_ [Hn Hm]].
+  destruct HK as [_ [_ [K2 [K3 [_ K5]]]]].
+  split; [exact Hn|]. split; [exact Hm|].
+  split; [intros u ch H E; apply Hn; rewrite <- E; exact (K2 u ch H)|].
+  split; [intros u b H E; apply Hn; rewrite <- E; exact (K3 u b H)|].
+  split; [intros H; apply Hn; exact (K5 _ H)|intros u H; apply Hn; exact (K5 _ H)].
+Qed.
+
+(* ---------------------------------------------------------------- the cache as read source *)
+Lemma upgrade_saved_totp k s u cs lvl s2 out : upgrade k s u cs lvl = (s2, out) -> saved_totp s2 = saved_totp s.
+Proof.
+  unfold upgrade. destruct (pick_sel (upg_last k) (attached s cs)) as [c|]; [|intros H; inversion H; subst; reflexivity].
+  destruct (upgrade_checks_owner k && negb (N.eqb (cuser c) u)); intros H; inversion H; subst; reflexivity.
+Qed.
+
+(* a request served from the cache writes nothing back: the persisted TOTP counter and the stored
+   bootstrap OTPs are what they were (the profile that came from the cache may be older than the one
+   in the primary database) *)
+Lemma cached_no_write k cert fault s o :
+  from_cache k = true ->
+  saved_totp (fst (step_req k cert fault s o)) = saved_totp s /\ boot (fst (step_req k cert fault s o)) = boot s.
+Proof.
+  intros Hc. destruct o; cbn [step_req]; rewrite ?Hc; try (split; reflexivity);
+  break_step; sset; try (split; reflexivity);
+  match goal with HU : upgrade _ _ _ _ _ = (_, _) |- _ =>
+    pose proof (upgrade_saved_totp _ _ _ _ _ _ _ HU) as G;
+    destruct (upgrade_fields _ _ _ _ _ _ _ HU) as [_ [_ [_ [_ [_ [_ [F7 _]]]]]]] end;
+  try (destruct (a_wa_key a); [destruct (chal_delete_wa k)|]);
+  try (destruct (totp_mem_guard k)); sset_all; split; congruence.
+Qed.
+
+(* the replay guard of validateUserTOTP as it was: in cached mode the accepted step was neither
+   persisted nor remembered — the same code is accepted again as long as the primary is slow *)
+Definition cfg_mem_guard (g : bool) : config :=
+  {| devs := fun _ => dev_all; webui := 2 ^ F_U2F; cookie_life := 57600; sel_last := true; upg_last := true;
+     vip_life := 120; vip_expiry := true; poll_checks_user := true;
+     totp_monotone := true; chal_expiry := true; chal_delete_wa := true; upgrade_checks_owner := true;
+     okta_on := false; okta_life := 300; from_cache := false; totp_mem_guard := g |}.
+Definition w_cached_totp : list op :=
+  [Tick 3000; Login 1 true; Cached (Totp [0%nat] (TCode 1 100)); Cached (Totp [0%nat] (TCode 1 100));
+   Totp [0%nat] (TCode 1 100)].
+Lemma old_cached_totp :
+  ~ NoDup (spent (fst (run (cfg_mem_guard false) init w_cached_totp))) /\
+  NoDup (spent (fst (run (cfg_mem_guard true) init w_cached_totp))) /\
+  saved_totp (fst (run (cfg_mem_guard true) init w_cached_totp)) 1%N = 0%Z.
+Proof.
+  split; [|split].
+  - vm_compute. intros H. inversion H as [|x l Hn Hd]; subst. apply Hn. left. reflexivity.
+  - vm_compute. repeat constructor. intros [].
+  - vm_compute. reflexivity.
+Qed.
